@@ -431,8 +431,20 @@ func (g *Gen) expand(pat string, v View) {
 		if id == "" {
 			return
 		}
-		st := []step{lit(Action{Op: "armcrash", Node: id, K: rapid.IntRange(1, 8).Draw(t, "k"), Before: rapid.Bool().Draw(t, "before")})}
-		st = append(st, submitAt("leader", "write"), advance(g.dur("d", hb, et, 2*et)))
+		arm := Action{Op: "armcrash", Node: id, K: rapid.IntRange(1, 8).Draw(t, "k"), Before: rapid.Bool().Draw(t, "before")}
+		twice := false
+		if rapid.IntRange(0, 2).Draw(t, "torn") == 0 {
+			// the kill falls inside a log append (if the armed operation is one): torn tail; such a node is restarted
+			// twice, with appends in between (what a repair leaves behind shows at the *next* restart)
+			arm.Sel = rapid.IntRange(1, 500).Draw(t, "cut")
+			twice = true
+		}
+		st := []step{lit(arm)}
+		st = append(st, submitAt("leader", "write"), submitAt("leader", "write"), advance(g.dur("d", hb, et, 2*et)))
+		if twice {
+			st = append(st, lit(Action{Op: "restart", Node: id}), advance(g.dur("dt", et, 2*et)), submitAt("leader", "write"), submitAt("leader", "write"), advance(g.dur("dt2", 2*hb, et)),
+				lit(Action{Op: rapid.SampledFrom([]string{"stop", "crash"}).Draw(t, "again"), Node: id}), advance(g.dur("dt3", hb, et)))
+		}
 		if rapid.Bool().Draw(t, "provoke") {
 			st = append(st, lit(Action{Op: "isolate", Node: id, Mode: "drop", Dir: "in"}), advance(2*et), lit(Action{Op: "reconnect", Node: id, Mode: "drop"}), advance(et))
 		}
@@ -689,6 +701,11 @@ func (g *Gen) expand(pat string, v View) {
 		others := g.C.others(leader)
 		voter := g.pick("voter", others)
 		var st []step
+		sameInstance := rapid.IntRange(0, 2).Draw(t, "sameInstance") == 0
+		if sameInstance && rapid.Bool().Draw(t, "earlierRestart") {
+			// the voter has been through a Stop()/Restart() of the same instance before (its storage objects have read their files once)
+			st = append(st, lit(Action{Op: "api", Kind: "stop", Node: voter}), advance(g.dur("ds0", 1000, hb)), lit(Action{Op: "api", Kind: "restart", Node: voter}), advance(g.dur("ds1", hb, et)))
+		}
 		// only the old leader may ask for votes at first; it reaches only the voter, whose replies are parked
 		for _, o := range others {
 			for _, q := range g.C.Order {
@@ -715,7 +732,12 @@ func (g *Gen) expand(pat string, v View) {
 		st = append(st, lit(Action{Op: "releaseto", Node: leader, Mode: "deliver"}), advance(g.dur("d2", 2000, hb)))
 		st = append(st, lit(Action{Op: "isolate", Node: leader, Mode: "drop", Dir: "out"}))
 		// the voter loses its memory; the others may campaign now
-		st = append(st, lit(Action{Op: "crash", Node: voter}), lit(Action{Op: "restart", Node: voter}))
+		// (a crash and a new process - or Stop() and Restart() on the same instance, whose storage objects live on)
+		if sameInstance {
+			st = append(st, lit(Action{Op: "api", Kind: "stop", Node: voter}), advance(g.dur("ds", 1000, hb)), lit(Action{Op: "api", Kind: "restart", Node: voter}))
+		} else {
+			st = append(st, lit(Action{Op: "crash", Node: voter}), lit(Action{Op: "restart", Node: voter}))
+		}
 		silent := rapid.IntRange(0, 2).Draw(t, "voterSilent") != 0
 		for _, o := range others {
 			if o == voter && silent {
@@ -994,9 +1016,12 @@ func (g *Gen) expand(pat string, v View) {
 			st = append(st, submitAt(leader, "write"))
 		}
 		st = append(st, lit(Action{Op: "remove", Node: leader, Node2: a, Client: g.nextClient(), Timeout: 100}), advance(g.dur("d0", 1000, hb)))
-		if rapid.Bool().Draw(t, "crashOld") {
+		// the old leader dies (and is repaired by truncation after its restart) - or stays up, cut off
+		down := rapid.IntRange(0, 2).Draw(t, "oldLeader")
+		switch down {
+		case 0:
 			st = append(st, lit(Action{Op: "crash", Node: leader}))
-		} else {
+		case 1:
 			st = append(st, lit(Action{Op: "stop", Node: leader}))
 		}
 		st = append(st, advance(g.dur("d1", 2*et, 3*et)))
@@ -1011,7 +1036,33 @@ func (g *Gen) expand(pat string, v View) {
 			}
 			return Action{Op: "remove", Node: id, Node2: target, Client: g.nextClient(), Timeout: 500}, true
 		}, advance(g.dur("d2", 2*hb, et)))
-		st = append(st, lit(Action{Op: "restart", Node: leader}), lit(Action{Op: "reconnect", Node: leader, Mode: "drop"}), advance(g.dur("d3", et, 2*et)))
+		// optionally the others compact beyond the aborted entry, so that the repair is an InstallSnapshot that discards the log
+		if rapid.Bool().Draw(t, "compact") {
+			for i := rapid.IntRange(1, 5).Draw(t, "more"); i > 0; i-- {
+				st = append(st, func(g *Gen, v View) (Action, bool) {
+					id := newestLeaderExcept(v, leader)
+					if id == "" {
+						return Action{Op: "advance", DurUs: et}, true
+					}
+					return Action{Op: "submit", Node: id, Kind: "write", Client: g.nextClient(), Timeout: 2000}, true
+				})
+			}
+			st = append(st, advance(g.dur("dc", hb, 2*hb)))
+			for _, o := range voters {
+				st = append(st, lit(Action{Op: "armsnap", Node: o}))
+			}
+			st = append(st, func(g *Gen, v View) (Action, bool) {
+				id := newestLeaderExcept(v, leader)
+				if id == "" {
+					return Action{Op: "advance", DurUs: et}, true
+				}
+				return Action{Op: "submit", Node: id, Kind: "write", Client: g.nextClient(), Timeout: 2000}, true
+			}, advance(g.dur("dc2", 2*hb, et)))
+		}
+		if down != 2 {
+			st = append(st, lit(Action{Op: "restart", Node: leader}))
+		}
+		st = append(st, lit(Action{Op: "reconnect", Node: leader, Mode: "drop"}), advance(g.dur("d3", et, 2*et)))
 		side := []string{leader, w}
 		sort.Strings(side)
 		st = append(st, lit(Action{Op: "partition", Set: side, Mode: "drop"}), advance(g.dur("d4", 3*et, 5*et)))
@@ -1156,6 +1207,80 @@ func (g *Gen) expand(pat string, v View) {
 		st = append(st, lit(Action{Op: rapid.SampledFrom([]string{"crash", "stop"}).Draw(t, "how"), Node: c}), lit(Action{Op: "restart", Node: c}))
 		st = append(st, lit(Action{Op: "heal", Mode: "drop"}), advance(g.dur("d2", 4*et, 8*et)))
 		g.push("P32", st...)
+	case "P33": // a cut-off leader keeps accepting operations (long, diverging, never committed); the others elect, commit more and
+		// compact beyond its log start; heal: it must be repaired through InstallSnapshot although its log reaches the label
+		if leader == "" || len(g.C.others(leader)) < 2 {
+			g.push("P33", advance(et))
+			return
+		}
+		var st []step
+		st = append(st, lit(Action{Op: "isolate", Node: leader, Mode: "drop"}))
+		k := rapid.IntRange(3, 12).Draw(t, "stale")
+		for i := 0; i < k; i++ {
+			st = append(st, submitAt(leader, "write"))
+		}
+		st = append(st, advance(g.dur("d0", 2*et, 3*et)))
+		m := rapid.IntRange(2, 8).Draw(t, "fresh")
+		for i := 0; i < m; i++ {
+			st = append(st, func(g *Gen, v View) (Action, bool) {
+				id := newestLeaderExcept(v, leader)
+				if id == "" {
+					return Action{Op: "advance", DurUs: et}, true
+				}
+				return Action{Op: "submit", Node: id, Kind: "write", Client: g.nextClient(), Timeout: 2000}, true
+			})
+		}
+		st = append(st, advance(g.dur("d1", hb, 2*hb)))
+		for _, o := range g.C.others(leader) {
+			st = append(st, lit(Action{Op: "armsnap", Node: o}))
+		}
+		st = append(st, func(g *Gen, v View) (Action, bool) {
+			id := newestLeaderExcept(v, leader)
+			if id == "" {
+				return Action{Op: "advance", DurUs: et}, true
+			}
+			return Action{Op: "submit", Node: id, Kind: "write", Client: g.nextClient(), Timeout: 2000}, true
+		}, advance(g.dur("d2", 2*hb, et)))
+		// optionally the diverged node dies at one of the storage operations of its repair and is restarted
+		dies := g.P.Crashes && rapid.Bool().Draw(t, "diesInRepair")
+		if dies {
+			st = append(st, lit(Action{Op: "armcrash", Node: leader, K: rapid.IntRange(1, 10).Draw(t, "k"), Before: rapid.Bool().Draw(t, "before")}))
+		}
+		st = append(st, lit(Action{Op: "heal", Mode: "drop"}), advance(g.dur("d3", et, 3*et)))
+		if dies {
+			st = append(st, lit(Action{Op: "restart", Node: leader}), advance(g.dur("d3b", et, 2*et)))
+		}
+		st = append(st, submitAt("leader", "write"), advance(g.dur("d4", hb, et)))
+		g.push("P33", st...)
+	case "P34": // a cut-off leader with pending submissions (long client timeouts) is stopped; the others commit at the same indexes;
+		// the *same instance* is started again and repaired - its old futures must not come true with somebody else's entries
+		if leader == "" || len(g.C.others(leader)) < 2 {
+			g.push("P34", advance(et))
+			return
+		}
+		var st []step
+		st = append(st, lit(Action{Op: "isolate", Node: leader, Mode: "drop"}))
+		k := rapid.IntRange(1, 4).Draw(t, "pending")
+		for i := 0; i < k; i++ {
+			st = append(st, func(g *Gen, v View) (Action, bool) {
+				return Action{Op: "submit", Node: leader, Kind: "write", Client: g.nextClient(), Timeout: 30000}, true
+			})
+		}
+		st = append(st, advance(g.dur("d0", 1000, hb)), lit(Action{Op: "api", Kind: "stop", Node: leader}), advance(g.dur("d1", 2*et, 3*et)))
+		m := rapid.IntRange(1, 5).Draw(t, "fresh")
+		for i := 0; i < m; i++ {
+			st = append(st, func(g *Gen, v View) (Action, bool) {
+				id := newestLeaderExcept(v, leader)
+				if id == "" {
+					return Action{Op: "advance", DurUs: et}, true
+				}
+				return Action{Op: "submit", Node: id, Kind: "write", Client: g.nextClient(), Timeout: 2000}, true
+			})
+		}
+		st = append(st, advance(g.dur("d2", hb, 2*hb)), lit(Action{Op: "heal", Mode: "drop"}))
+		st = append(st, lit(Action{Op: "api", Kind: rapid.SampledFrom([]string{"restart", "start"}).Draw(t, "how"), Node: leader}), advance(g.dur("d3", et, 3*et)))
+		st = append(st, submitAt("leader", "write"), advance(g.dur("d4", 2*hb, et)))
+		g.push("P34", st...)
 	case "P10": // membership change under fault
 		g.push("P10", g.membershipSteps(v)...)
 	case "P11": // everything down, a strict majority (or everybody) comes back
